@@ -53,7 +53,10 @@ def value_for(rng, e: dict, d: specgen.Doc):
 def body_for(rng, b: dict, d: specgen.Doc):
     m = b["media"]
     if m == "application/json":
-        return instgen.instance(rng, b["schema"], d.sexp, rng.choice(["min", "max", "random"]))
+        v = instgen.instance(rng, b["schema"], d.sexp, rng.choice(["min", "max", "random"]))
+        if isinstance(v, list) and v and rng.random() < 0.6:
+            v = v + [v[0]] + v[:1]      # the same element several times (the probe passes ONE shared instance)
+        return v
     if m == "application/x-www-form-urlencoded":
         return {"a": rng.choice(["x", "y z"]), "b": rng.choice([1, 22])}
     if m == "multipart/form-data":
